@@ -8,7 +8,9 @@ Stage 1  TLC on spec/MemModel.tla: with the intended formulas (UnitsFixed, HashT
 Stage 2  on the real code: (a) the public estimators are called for every grid point (pure arithmetic) and must
          return exactly the model's values; (b) for dictionaries up to 32 MiB (thorough: 256 MiB) the object is
          really constructed and used under a counting global allocator: peak <= estimate * 1024 and
-         estimate <= 2 * peak + 256 KiB, and the peak must be what the inventory predicts; (c) LZMAReader::
+         estimate <= 2 * peak + 256 KiB, and the peak must be what the inventory predicts; readers are measured
+         while decoding streams of every LZMA2 chunk kind (LZMA chunks, uncompressed chunks, both) through caller
+         buffers from 1 byte to larger than any chunk; (c) LZMAReader::
          new_mem_limit over forged .lzma headers x limits: need > limit => OutOfMemory with < 1 KiB allocated.
 Stage 3  the measurements are validated by TLC as a trace against Trace_MemModel (formula and inventory binding).
 """
@@ -151,13 +153,30 @@ def run(tier, replay=None):
             dec.append({"id": f"dl-{d}-{lclp}", "kind": "dec_lzma", "opts": opts_of({"dict": d, "mode": "fast", "mf": "hc4", "lclp": lclp}), "input_len": min(d + 100000, 2 * MiB), "dict": d, "lclp": lclp})
             if lclp <= 4:
                 dec.append({"id": f"d2-{d}-{lclp}", "kind": "dec_lzma2", "opts": opts_of({"dict": d, "mode": "fast", "mf": "hc4", "lclp": lclp}), "input_len": min(d + 100000, 2 * MiB), "dict": d, "lclp": lclp})
+    # the RUNNING reader: streams made of every chunk kind (LZMA chunks from compressible data, uncompressed chunks from
+    # incompressible data, both) read through caller buffers from one byte to larger than any chunk. The estimate is a function of
+    # (dict_size, props) alone, so neither the content nor the caller's buffer size may show up in the reader's own heap.
+    read_lens = [1, 4096, 65536, 1 * MiB, 3 * MiB]
+    k = 0
+    for d in [4096, 65536, 8 * MiB] + ([] if quick else [1 * MiB, 64 * MiB]):
+        for data in ("random", "text+random", "mixed", "text") + (() if quick else ("random+text",)):
+            for rl in read_lens:
+                if data == "text" and rl == 65536:
+                    continue                     # the base case above
+                k += 1
+                for kind, lclp in (("dec_lzma2", (0, 3, 4)[k % 3]), ("dec_lzma", (0, 3, 8)[k % 3])):
+                    if kind == "dec_lzma" and (k % 2 or data == "mixed") and quick:
+                        continue
+                    dec.append({"id": f"{kind}-{d}-{lclp}-{data}-{rl}", "kind": kind, "opts": opts_of({"dict": d, "mode": "fast", "mf": "hc4", "lclp": lclp}),
+                                "input_len": min(d + 100000, 2 * MiB), "dict": d, "lclp": lclp, "data": data, "read_len": rl})
     strip = lambda c: {k: v for k, v in c.items() if k not in ("pi", "dict", "lclp", "preset")}
     big = [c for c in meas if c["opts"]["dict_size"] > 32 * MiB]
     small = [c for c in meas if c["opts"]["dict_size"] <= 32 * MiB]
     mres = dict(zip([c["id"] for c in small], dlib.run_cases("vh_mem", [strip(c) for c in small], nproc=4, per_batch=6, timeout=2400)))
     mres.update(zip([c["id"] for c in big], dlib.run_cases("vh_mem", [strip(c) for c in big], nproc=1, timeout=2400)))
-    dres = dlib.run_cases("vh_mem", [strip(c) for c in dec], nproc=4)
+    dres = dlib.run_cases("vh_mem", [strip(c) for c in dec], nproc=8)
     classes = set()
+    run_classes = collections.Counter()
     ratios = []
     inv_mismatch = 0
 
@@ -205,10 +224,21 @@ def run(tier, replay=None):
         d, lclp = c["dict"], c["lclp"]
         r16 = lambda v: (v + 15) // 16 * 16
         alloc = (kib(r16(d)) + 64 if lz2 else kib(r16(max(d, 4096)))) + kib(1536 << lclp)
-        out = judge("decoder/" + ("lzma2" if lz2 else "lzma"), "lzma2_get_memory_usage" if lz2 else "lzma_get_memory_usage_by_props", c, r, alloc, f"dict={d} lc+lp={lclp}")
-        if out and lclp in (0, 3, 4):
+        out = judge("decoder/" + ("lzma2" if lz2 else "lzma"), "lzma2_get_memory_usage" if lz2 else "lzma_get_memory_usage_by_props", c, r, alloc,
+                    f"dict={d} lc+lp={lclp}" + (f" data={c['data']} read buffer={c['read_len']} (chunks: {r.get('chunks_lzma', '-')} LZMA, {r.get('chunks_unc', '-')} uncompressed)" if "read_len" in c else ""))
+        if out:
+            rl = c.get("read_len", 65536)
+            kinds = ("lzma" if r.get("chunks_lzma") else "") + ("+unc" if r.get("chunks_unc") else "") if lz2 else "lzma1"
+            run_classes[(c["kind"], kinds, "1" if rl == 1 else "<chunk" if rl < 65536 else "=chunk" if rl == 65536 else ">chunk")] += 1
+        if out and lclp in (0, 3, 4) and "read_len" not in c:
             trace.append({"op": "Dec", "kind": "lzma2" if lz2 else "lzma", "dict": d, "mode": "fast", "mf": "hc4", "lclp": lclp, "est": out[0], "peak": out[1], "dlz": 0, "dlz2": 0})
     stats["measured"] = len(meas) + len(dec)
+    for kinds in ("lzma", "+unc", "lzma+unc"):
+        for rcl in ("1", "<chunk", "=chunk", ">chunk"):
+            if not run_classes[("dec_lzma2", kinds, rcl)]:
+                raise ToolError(f"vacuous: no LZMA2Reader measured on a stream of chunk kinds '{kinds}' with read buffers of class {rcl}")
+    classes.update(("decoder-run",) + k for k in run_classes)
+    ctx.cov["decoder_run_classes"] = {"/".join(k): n for k, n in sorted(run_classes.items())}
     log(f"[stage2] {len(est_cases)} estimator evaluations, {len(meas)} encoder + {len(dec)} decoder measurements in {time.time()-t0:.1f}s; "
         f"est/peak in [{min(ratios):.3f}, {max(ratios):.3f}]" if ratios else f"[stage2] done in {time.time()-t0:.1f}s (no measurement inside the bounds)")
     if model_bad and not ctx.violations and not ctx.known_hits:
